@@ -26,7 +26,7 @@ RULE = (
 ASSUMPTIONS = c02.ASSUMPTIONS + ["decisions are compared only away from the threshold (tau in {0.2,0.9,1.1,5})"]
 BUDGET = {
     "quick": {"shards": 16, "examples": 8, "wall": 120},
-    "thorough": {"shards": 16, "examples": 100, "wall": 1200},
+    "thorough": {"shards": 16, "examples": 1000, "wall": 900},
 }
 
 
